@@ -399,9 +399,14 @@ func (s *Session[K]) CheckRanges(r *rng.R) {
 		case 10:
 			if s.K.Family == "alpha" {
 				var z K
-				if r.Chance(1, 2) {
+				switch r.Intn(5) {
+				case 0, 1:
 					s.CheckRange(stored(), z, "empty_end")
-				} else {
+				case 2:
+					s.CheckRange(s.K.Near(r, stored()), z, "empty_end")
+				case 3:
+					s.CheckRange(z, z, "empty_both")
+				default:
 					s.CheckRange(z, stored(), "empty_start")
 				}
 			} else {
